@@ -1,12 +1,23 @@
 //cfg: fn @ start
 //cfg: fn @ adv
 //cfg: fn @ twice
+//cfg: fn @ idx
+//cfg: fn @ conv
+//cfg: fn @ both
 //grid: start({i}) ||| src_start {i} ||| i=0,5,6148914691236517205,6148914691236517206,18446744073709551615
 //grid: adv({i}, {n}) ||| src_adv {i} {n} ||| i=0,18446744073709551610; n=0,5,6
 //grid: twice({i}) ||| src_twice {i} ||| i=1,9223372036854775807,9223372036854775808
 //case: (Some(65535usize), None::<usize>, 65535usize) ||| (src_start (U__ := {| Casts.usize_max_w := 65535 |}) 21845, src_start (U__ := {| Casts.usize_max_w := 65535 |}) 21846, src_adv (U__ := {| Casts.usize_max_w := 65535 |}) 65530 10)
+//grid: idx({a}) ||| src_idx {a} ||| a=-1,0,7,-2147483648
+//grid: conv({a}) ||| src_conv {a} ||| a=-1,0,70000
+//grid: both({a}) ||| src_both {a} ||| a=-1,3
+//case: (65535usize, None::<usize>, 4464usize) ||| (src_idx (U__ := {| Casts.usize_max_w := 65535 |}) (-1), src_conv (U__ := {| Casts.usize_max_w := 65535 |}) 70000, src_idx (U__ := {| Casts.usize_max_w := 65535 |}) 70000)
+// `x as usize` and `usize::try_from(x)` wrap / test at the width of usize too (round 6); a caller inherits the parameter;
 // checked_mul / saturating_add on usize take the width of usize as the implicit Casts.UsizeW (the cases run at 64 bit; the last
 // case evaluates the 16-bit instance and only checks that it is accepted), callers inherit the parameter
 pub fn start(index: usize) -> Option<usize> { index.checked_mul(3) }
 pub fn adv(index: usize, n: usize) -> usize { index.saturating_add(n) }
 pub fn twice(index: usize) -> Option<usize> { start(index).and_then(|s| s.checked_add(adv(index, 0))) }
+pub fn idx(a: i32) -> usize { a as usize }
+pub fn conv(a: i32) -> Option<usize> { if let Ok(v) = usize::try_from(a) { Some(v) } else { None } }
+pub fn both(a: i32) -> usize { idx(a) / 2 + 1 }
